@@ -174,6 +174,36 @@ func c08Gen(K int) func(t *rapid.T) c08Case {
 
 func TestC08(t *testing.T) {
 	ev.Check(t, "c08_entropy", ev.N(8000, 60000), c08Gen(ev.Pick(24, 100)), c08Run)
+	// big lists: every word counts, wherever map iteration happens to put it
+	ev.Check(t, "c08_big_lists", ev.N(16, 160), func(t *rapid.T) c08Case {
+		return c08Case{W: gen.WLSpec{Length: rapid.IntRange(2, 6).Draw(t, "len"), Scheme: rapid.SampledFrom([]string{"random", "one"}).Draw(t, "scheme"),
+			Sep: gen.SepSpec{Kind: "const", Const: ""}}, Calls: rapid.IntRange(1000, 1100).Draw(t, "size")}
+	}, func(c c08Case) error {
+		n := c.Calls
+		words := make([]string, 0, n+1)
+		for i := 0; i < n; i++ {
+			words = append(words, fmt.Sprintf("w%04d", i))
+		}
+		words = append(words, "4") // the only word that does not change under title-casing
+		kept := oracle.Kept(words)
+		want := oracle.WLEntropy(c.W.Length, kept, c.W.Scheme, 0)
+		for k := 0; k < 40; k++ {
+			// rotate the input: the same word set every time
+			rot := append(append([]string{}, words[k*7%len(words):]...), words[:k*7%len(words)]...)
+			wl, err := spg.NewWordList(rot)
+			if err != nil {
+				return err
+			}
+			r := spg.NewWLRecipe(c.W.Length, wl)
+			r.Capitalize = spg.CapScheme(c.W.Scheme)
+			if got := r.Entropy(); !oracle.Close32(got, want, 4, 0) {
+				return fmt.Errorf("list of %d words (one of them \"4\"), construction %d: Entropy() = %v, want %.5f", len(words), k, got, want)
+			}
+		}
+		ev.NonTrivial(fmt.Sprintf("big|%d|%s|%d", n, c.W.Scheme, c.W.Length))
+		ev.Class("big_list_constructions")
+		return nil
+	})
 	// shipped lists: entropy of the documented example recipes
 	ev.Check(t, "c08_shipped", ev.N(16, 64), func(t *rapid.T) c08Case {
 		return c08Case{W: gen.WLSpec{Words: nil, Length: rapid.IntRange(1, 12).Draw(t, "len"), Scheme: gen.Scheme(t, false), Sep: gen.Sep(t, false, false)}, Calls: rapid.IntRange(0, 1).Draw(t, "which")}
